@@ -1,0 +1,85 @@
+//go:build verif
+
+package builder
+
+// Contracts of the rule builder (C17, C20). Comment-only file: with the build tag off the compiler never sees it.
+//
+// T-ANTLR typestate (ghost): which error listeners are installed on a recognizer, which lexer feeds a token stream, which
+// stream feeds a parser. The generated lexer/parser and the ANTLR runtime are opaque; the externs below state only how the
+// builder's own calls change that ghost state. The parse itself happens in (*grulev3Parser).Grl(): whatever is installed on
+// the parser and on its lexer AT THAT CALL is what syntax errors are reported to.
+//@ ghost var $errHas array[Ref]array[Ref]bool
+//@ ghost var $noL array[Ref]bool
+//@ ghost var $tsLexer array[Ref]Ref
+//@ ghost var $psrStream array[Ref]Ref
+//@ ghost var $parsed bool
+//@ ghost var $parseP array[Ref]bool
+//@ ghost var $parseL array[Ref]bool
+//@ ghost var $walked bool
+//@ ghost var $walkL Ref
+//@ ghost var $walkTreeFromParse bool
+//@ ghost var $lastTree Ref
+
+//@ extern func (b *github.com/antlr4-go/antlr/v4.BaseRecognizer) RemoveErrorListeners() ()
+//@   nopanic
+//@   modifies
+//@   ghost_exit $errHas = store($errHas, b, $noL)
+//@ extern func (b *github.com/antlr4-go/antlr/v4.BaseRecognizer) AddErrorListener(listener) ()
+//@   nopanic
+//@   modifies
+//@   ghost_exit $errHas = store($errHas, b, store($errHas[b], listener, true))
+//@ extern func github.com/antlr4-go/antlr/v4.NewCommonTokenStream(lexer, channel) (r)
+//@   nopanic
+//@   modifies
+//@   ensures r != nil
+//@   ghost_exit $tsLexer = store($tsLexer, r, lexer)
+//@ extern func antlr/parser/grulev3.Newgrulev3Lexer(input) (r)
+//@   nopanic
+//@   modifies alloc
+//@   ensures r != nil && fresh(r)
+//@ extern func antlr/parser/grulev3.Newgrulev3Parser(input) (r)
+//@   nopanic
+//@   modifies alloc
+//@   ensures r != nil && fresh(r) && r.BaseParser != nil
+//@   ghost_exit $psrStream = store($psrStream, r, input)
+//@ extern func (p *antlr/parser/grulev3.grulev3Parser) Grl() (tree)
+//@   nopanic
+//@   modifies
+//@   ghost_exit $parsed = true
+//@   ghost_exit $parseP = $errHas[p]
+//@   ghost_exit $parseL = $errHas[$tsLexer[$psrStream[p]]]
+//@   ghost_exit $lastTree = tree
+
+// T-USER: a resource yields bytes or an error
+//@ extern func (r pkg.Resource) Load() (data, err)
+//@   nopanic
+//@   modifies
+//@ extern func (r pkg.Resource) String() (s)
+//@   nopanic
+//@   modifies
+
+// "a rejected text does not damage what was loaded before": nothing of the rejected text stays behind in the knowledge base
+//@ macro func kbUntouched(kb *ast.KnowledgeBase) bool { return kb != nil ==>
+//@      (forall k string :: has(kb.WorkingMemory.expressionSnapshotMap, k) == old(has(kb.WorkingMemory.expressionSnapshotMap, k)))
+//@   && (forall k string :: has(kb.WorkingMemory.expressionAtomSnapshotMap, k) == old(has(kb.WorkingMemory.expressionAtomSnapshotMap, k)))
+//@   && (forall k string :: has(kb.WorkingMemory.variableSnapshotMap, k) == old(has(kb.WorkingMemory.variableSnapshotMap, k)))
+//@   && (forall k string :: has(kb.RuleEntries, k) == old(has(kb.RuleEntries, k))) }
+// C17: nil is returned only when the text was parsed with ONE reporter installed on the lexer, on the parser and in the
+// listener, the tree that was walked is the tree that was parsed, and that reporter holds no error at the end (nothing is
+// dropped on the way: the callbacks and the walk never shrink the list). C20: the builder does not panic.
+//@ func (builder *RuleBuilder) BuildRuleFromResource(name, version, resource) (err)
+//@   serves C17 C20
+//@   opt alloc=1
+//@   requires builder != nil && libWF(builder.KnowledgeLibrary) && resource != nil
+//@   requires nodesInv() && filedStable() && (forall l Ref :: !$noL[l])
+//@   nopanic
+//@   modifies *, $errHas, $tsLexer, $psrStream, $parsed, $parseP, $parseL, $lastTree, $walked, $walkL, $walkTreeFromParse, $nrank, $filedE, $filedNegE, $filedA, $filedNegA
+//@   ghost_entry $parsed = false
+//@   ghost_entry $walked = false
+//@   invariant@1 inv: LInv(listener) && RInv(listener) && listener.Grl == grl && grl != nil && listener.KnowledgeBase == knowledgeBase && listener.ErrorCallback == errReporter && (forall k string :: has(grl.RuleEntries, k) == $dom[k])
+//@   invariant@1 errs: len(errReporter.Errors) >= 0
+//@   ensures[C17] parsed: err == nil ==> $parsed && $walked && $walkTreeFromParse
+//@   ensures[C17] reporteronparser: err == nil ==> $parseP[as($walkL, *antlr.GruleV3ParserListener).ErrorCallback]
+//@   ensures[C17] reporteronlexer: err == nil ==> $parseL[as($walkL, *antlr.GruleV3ParserListener).ErrorCallback]
+//@   ensures[C17] noerrorleft: err == nil ==> len(as($walkL, *antlr.GruleV3ParserListener).ErrorCallback.Errors) == 0
+//@   ensures[C17] rejectedharmless: err != nil ==> (old(has(builder.KnowledgeLibrary.Library, name + ":" + version)) ==> kbUntouched(old(builder.KnowledgeLibrary.Library[name + ":" + version])))
